@@ -17,7 +17,13 @@ func (ts Timestamp) Time() time.Time {
 
 // TimestampFromTime creates a Timestamp from a Time
 func TimestampFromTime(t time.Time) Timestamp {
-	return Timestamp(t.UnixNano())
+	ns := t.UnixNano()
+	if ns < 0 {
+		// Before the epoch, e.g. now minus a very long retention period.
+		// A conversion would wrap around to the far future.
+		return 0
+	}
+	return Timestamp(ns)
 }
 
 // TxnID is the LMDB transaction ID.
